@@ -147,24 +147,44 @@ def pr_atom(atom, lay, q=None):
         t = lay.w("trans")
         return "_(" + t + _quote(atom[1], q) + t + ")"
     if k == "tpl":
-        inner = _other(q)
-        parts = []
-        for p in atom[1]:
-            if p[0] == "text":
-                parts.append(p[1])
-            elif p[0] == "var":
-                parts.append("{{ " + pr_leaf(p[1], CANON, inner) + " }}")
-            elif p[0] == "tag":
-                parts.append(p[1])
-            elif p[0] == "comment":
-                parts.append("{# " + p[1] + " #}")
-            else:
-                raise ValueError(p)
-        content = "".join(parts)
-        if q in content:
-            raise ValueError("nested template text contains the outer quote")
-        return q + content + q
+        # The outer quote is the layout's unless the content forbids it: a text piece may hold one
+        # kind of quote character bare (then the other kind must be the outer one) or escaped
+        # (backslash + quote - then that kind must be the outer one: a backslash before the *other*
+        # quote is one of the excluded "other backslash escapes").
+        for outer in (q, _other(q)):
+            content = _tpl_content(atom[1], _other(outer))
+            if _tpl_fits(content, outer):
+                return outer + content + outer
+        raise ValueError("nested template text fits neither outer quote: %r" % (atom,))
     raise ValueError(atom)
+
+
+def _tpl_content(pieces, inner):
+    parts = []
+    for p in pieces:
+        if p[0] == "text":
+            parts.append(p[1])
+        elif p[0] == "var":
+            parts.append("{{ " + pr_leaf(p[1], CANON, inner) + " }}")
+        elif p[0] == "tag":
+            parts.append(p[1])
+        elif p[0] == "comment":
+            parts.append("{# " + p[1] + " #}")
+        else:
+            raise ValueError(p)
+    return "".join(parts)
+
+
+def _tpl_fits(content, outer):
+    """no bare `outer` and no backslash-escaped other quote inside `content`"""
+    prev = ""
+    for ch in content:
+        if ch == outer and prev != "\\":
+            return False
+        if ch == _other(outer) and prev == "\\":
+            return False
+        prev = ch
+    return True
 
 
 def pr_leaf(lf, lay, q=None):
@@ -287,6 +307,15 @@ class Reference:
 
         self.parser = Parser([], builtins=[default_filters])
         self._fe = {}
+        # reading of a backslash-escaped quote inside a nested-template string (not fixed by the
+        # statement): False -> the text between the outer quotes is the template as written
+        # (backslash kept), True -> the escape denotes the bare quote character (as in a plain string)
+        self.unescape_tpl = False
+
+    def _tpl_text(self, t):
+        if self.unescape_tpl:
+            return t.replace('\\"', '"').replace("\\'", "'")
+        return t
 
     def leaf_value(self, lf, ctx):
         from django.template.base import FilterExpression, render_value_in_context
@@ -306,7 +335,7 @@ class Reference:
             out = []
             for p in pieces:
                 if p[0] == "text":
-                    out.append(p[1])
+                    out.append(self._tpl_text(p[1]))
                 elif p[0] == "var":
                     out.append(str(render_value_in_context(self.leaf_value(p[1], ctx), ctx)))
                 elif p[0] == "tag":
@@ -382,6 +411,14 @@ class Reference:
             if node and node[0] in ("badsp", "spkey", "spval", "@spread", "kwspread", "badtop"):
                 return True
             return any(self.find_invalid(c) for c in node)
+        return False
+
+    def has_escaped_tpl(self, node):
+        """True when a nested-template string of the abstract tree holds a backslash-escaped quote."""
+        if isinstance(node, tuple):
+            if len(node) == 2 and node[0] == "text" and isinstance(node[1], str):
+                return '\\"' in node[1] or "\\'" in node[1]
+            return any(self.has_escaped_tpl(c) for c in node)
         return False
 
     def arglist(self, args, ctx):
